@@ -4,6 +4,7 @@ package main
 
 import (
 	"regexp"
+	"sort"
 	"fmt"
 	"go/token"
 	"go/types"
@@ -302,6 +303,7 @@ func (fr *Frame) atCall(st *State, name string, args []Val, pos token.Pos) {
 		if !matchCallee(c.Callee, name) {
 			continue
 		}
+		u.patternHit("at call", c.Callee, name, top)
 		env := top.specEnv(st, top.entry)
 		if top == fr {
 			// locals named in the clause mean their value here: inside a loop that is the loop-carried value
@@ -331,6 +333,7 @@ func (fr *Frame) afterCallA(st *State, name string, res Val, args []Val) {
 		if !matchCallee(c.Callee, name) {
 			continue
 		}
+		u.patternHit("after call", c.Callee, name, top)
 		env := top.specEnv(st, top.entry)
 		rs := res.Tup
 		if rs == nil && res.T != "" {
@@ -350,6 +353,7 @@ func (fr *Frame) afterCallA(st *State, name string, res Val, args []Val) {
 		if !matchCallee(pat, name) {
 			continue
 		}
+		u.patternHit("ghost", pat, name, top)
 		g := "$called:" + pat
 		u.regHeap(g, "Bool")
 		wasCalled := u.heapCur(st, g)
@@ -1086,4 +1090,26 @@ func trBoolTol(env *Env, c *Clause, dflt string) (t string) {
 // clauseStale: the clause refers to something this version of the function does not have (a local variable, a call)
 func clauseStale(msg string) bool {
 	return strings.Contains(msg, "unknown identifier") || strings.Contains(msg, "no such call seen yet")
+}
+
+// patternHit: a callee pattern of an at-call / after-call clause is a substring match; when one pattern matches calls
+// to different callees in one function the clause may say more (or assume more) than intended - reported as a note
+// ("pattern ... matches several callees") so that it can be reviewed; a trailing $ makes the pattern a suffix match.
+func (u *Unit) patternHit(kind, pat, callee string, top *Frame) {
+	if u.patHits == nil {
+		u.patHits = map[string]map[string]bool{}
+	}
+	k := kind + " " + pat
+	if u.patHits[k] == nil {
+		u.patHits[k] = map[string]bool{}
+	}
+	u.patHits[k][callee] = true
+	if len(u.patHits[k]) > 1 {
+		var names []string
+		for n := range u.patHits[k] {
+			names = append(names, n)
+		}
+		sort.Strings(names)
+		u.note("pattern of `%s` in %s matches several callees: %s", k, top.fn, strings.Join(names, ", "))
+	}
 }
